@@ -492,7 +492,7 @@ def run_one(choices, params):
 
 
 def prepare(tier, seed):
-    return 3000 if tier == "quick" else 120000
+    return 12000 if tier == "quick" else 120000
 
 
 def params_for(i, tier, seed):
